@@ -361,13 +361,17 @@ def run_sessions(impl, sessions, tmp):
         errors.append('kernprof did not come from the scratch build: %r' % res.get('kernprof_file'))
     for s, r in zip(sessions, res['sessions']):
         k = r['kernprof']
-        if r['stats'] is None or k['rc'] != 0 or 'Timer unit: ' not in k['out'] or r['viewer'] is None:
+        if r['stats'] is None or r['viewer'] is None:
             errors.append('kernprof -l -v did not produce a report for %s (rc=%s): %s' % (s['script'], k['rc'], (k['err'] or k['out'])[-300:]))
             continue
         if not r.get('types_ok'):
             errors.append('the .lprof of %s holds non-int numbers' % s['script'])
             continue
-        ktext = k['out'][k['out'].index('Timer unit: '):]
+        # the .lprof was written: from here on a report that is not printed is the property failing
+        kerr = None
+        if k['rc'] != 0 or 'Timer unit: ' not in k['out']:
+            kerr = 'kernprof -l -v wrote the statistics but exited %s without a complete report: %s' % (k['rc'], (k['err'] or k['out'])[-200:])
+        ktext = k['out'][k['out'].index('Timer unit: '):] if 'Timer unit: ' in k['out'] else ''
         vtext = r['viewer']['out']
         for which, text, unit_out, combo, envs, cwd in (('kernprof -l -v', ktext, s['k_unit'], s['k_combo'], r['env_kernprof'], s['dir']),
                                                         ('python -m line_profiler', vtext, s['v_unit'], s['v_combo'], r['env_viewer'], s['view_cwd'])):
@@ -376,15 +380,16 @@ def run_sessions(impl, sessions, tmp):
                               combos=[combo], valid=True, shapes=['session:' + which] + (['odd_line_chars'] if s['odd_chars'] else [])
                               + (['two_spellings_of_one_file'] if s['self_import'] else []),
                               resolve=resolve, session=s, report=which))
-            outs.append(dict(env=envs, texts=[dict(text=text, err=None if (which == 'kernprof -l -v' or r['viewer']['rc'] == 0)
-                                                   else 'viewer exit %s: %s' % (r['viewer']['rc'], r['viewer']['err'][-300:]))]))
+            err = kerr if which == 'kernprof -l -v' else (
+                None if r['viewer']['rc'] == 0 else 'viewer exit %s: %s' % (r['viewer']['rc'], r['viewer']['err'][-300:]))
+            outs.append(dict(env=envs, texts=[dict(text=text, err=err)]))
     for out in outs:
         parse_outs(out)
     return cases, outs, errors
 
 
 def gen_cases(tier, rnd, tmpdir):
-    n_valid, n_bad, n_hist = (72, 14, 6) if tier == 'quick' else (1600, 320, 60)
+    n_valid, n_bad, n_hist = (60, 12, 6) if tier == 'quick' else (1600, 320, 60)
     cases = [finding_case(tmpdir, 0), ties_case(tmpdir, 1, 1.0, None), ties_case(tmpdir, 2, 1e-6, 1e-6),
              ties_case(tmpdir, 3, 1e-9, 1e-3), cell_finding_case(tmpdir, 4)]
     for i in range(n_hist):          # histories first: all steps of one history run in one driver process
@@ -798,7 +803,7 @@ def spec_failures(cases, outs):
         for j, combo in enumerate(case['combos']):
             o = out['parsed'][j]
             if o is None:
-                fails.append(dict(case=slim(case, combo), impl=out['texts'][j], why='show_text: ' + str(out['parse_err'][j]), finding=None))
+                fails.append(dict(case=slim(case, combo), impl=out['texts'][j], why='report: ' + str(out['parse_err'][j]), finding=None))
                 continue
             why = py_spec(case, combo, o, info)
             if why is not None:
